@@ -118,6 +118,10 @@ class _Site:
         self.features: set[str] = set()
         self.proc_kind: dict[str, str] = {}  # lower external name -> subroutine|function
         self.spaced = rng.random() < 0.5  # generic specs written with blanks between the tokens
+        # what the modules generated so far offer to later modules (`use m, only: ...`): plain module
+        # procedures (name, kind, argument names) and derived types - so that one page can list items
+        # that were defined in *different* source files (round 6)
+        self.exports: list[dict] = []
 
     # -- names -----------------------------------------------------------
     def tracer(self) -> str:
@@ -214,7 +218,7 @@ class _Site:
         return lines, {"name": name, "comps": comps}
 
     def proc(self, ind, kind, name, file, scope, ekind="proc", op=None, prefix="",
-             depth=0, page=True) -> list[str]:
+             depth=0, page=True, fixed_args=None, result=None) -> list[str]:
         """A subroutine/function.  `op` = ("op", typeinfo, logical) for a two-argument
         operator function, ("asg", typeinfo) for a defined-assignment subroutine."""
         rng = self.rng
@@ -244,11 +248,21 @@ class _Site:
             a, b = self.pick(used, ARGS, 1.0), self.pick(used, ARGS, 1.0)
             argdecl = [(a, f"type({ti['name']}), intent(out)"), (b, "integer, intent(in)")]
             body = [f"{a}%{ti['comps'][0]} = {b}"]
+        elif fixed_args is not None:
+            # (arguments given by the caller: a specific of a generic whose other specifics live in
+            # another module, a structure constructor whose arguments are named like the components)
+            argdecl = list(fixed_args)
+            used.update(a.lower() for a, _ in argdecl)
+            if result is not None:
+                restype, body = result
+            elif kind == "function":
+                body = ["r = 0"]
         else:
             for _ in range(rng.choice([0, 1, 1, 2])):
                 argdecl.append((self.pick(used, ARGS, 1.0), "integer, intent(in)"))
             if kind == "function":
                 body = ["r = 0"]
+        self.last_args = [a for a, _ in argdecl]
         arglist = ", ".join(a for a, _ in argdecl)
         head = f"{ind}{prefix}{kind} {name}({arglist})" + (" result(r)" if kind == "function" else "")
         lines = [head, f"{ind}  !! {t} {kind} {name}"]
@@ -302,6 +316,62 @@ class _Site:
         decl: list[str] = []
         procs: list[str] = []
         types = []
+        # ---- items of other modules (preferably of other files) shown on this module's pages
+        use_lines: list[str] = []
+        others = [x for x in self.exports if x["module"].lower() != name.lower()]
+        far = [x for x in others if x["file"] != file]
+        if (far or others) and rng.random() < 0.5:
+            imp = rng.choice(far or others)
+            only: list[str] = []
+            if imp["procs"] and rng.random() < 0.8:
+                # generic interface: one specific is use-associated, one is local; both are listed with
+                # their argument tables on the generic's page and on this module's page.  The local
+                # specific takes `real` arguments with the *names* of the imported one's arguments.
+                pn, pk, pargs = rng.choice(imp["procs"])
+                if pn.lower() not in used:
+                    used.add(pn.lower())
+                    only.append(pn)
+                    g, loc_nm = self.pick(used), self.pick(used)
+                    bases = [a.lower() for a in pargs] or [rng.choice(list(ARGS))]
+                    fixed = [(self.sp(ARGS, b), "real, intent(in)") for b in bases]
+                    procs += self.proc("  ", pk, loc_nm, file, sc, fixed_args=fixed)
+                    tt = self.tracer()
+                    self.ent("generic", g, file, tt, sc)
+                    how = rng.choice(["module procedure", "procedure ::", "procedure"])
+                    decl += [f"  interface {g}", f"    !! {tt} generic {g}",
+                             f"    module procedure {self.respell(NAMES, loc_nm)}",
+                             f"    {how} {self.respell(NAMES, pn)}", f"  end interface {g}"]
+                    self.features.add("generic-cross-module" + ("-file" if imp["file"] != file else ""))
+            if imp["types"] and rng.random() < 0.8:
+                # extended type: the page of the child lists the inherited components next to the
+                # arguments of the child's constructor (a generic named like the type), which are
+                # named like the components they initialise
+                ti = rng.choice(imp["types"])
+                if ti["name"].lower() not in used:
+                    used.add(ti["name"].lower())
+                    only.append(ti["name"])
+                    child, ctor = self.pick(used), self.pick(used)
+                    tc = self.tracer()
+                    self.ent("type", child, file, tc, sc)
+                    cused = {c.lower() for c in ti["comps"]}
+                    own = self.pick(cused, COMPS, 1.0)
+                    decl += [f"  type, extends({self.respell(NAMES, ti['name'])}) :: {child}",
+                             f"    !! {tc} type {child}"]
+                    decl += self.var_decl("    ", "integer", own, file, sc + "%" + child, "component")
+                    decl.append(f"  end type {child}")
+                    cargs = [self.sp(COMPS, c.lower()) for c in ti["comps"]] + [own]
+                    body = [f"r%{c} = {a}" for c, a in zip(ti["comps"] + [own], cargs)]
+                    procs += self.proc("  ", "function", ctor, file, sc,
+                                       fixed_args=[(a, "integer, intent(in)") for a in cargs],
+                                       result=(f"type({child})", body))
+                    tg = self.tracer()
+                    self.ent("generic", child, file, tg, sc + "#constructor")
+                    decl += [f"  interface {child}", f"    !! {tg} generic {child}",
+                             f"    module procedure {self.respell(NAMES, ctor)}", "  end interface"]
+                    types.append({"name": child, "comps": list(ti["comps"]) + [own]})
+                    self.features.add("extends-cross-module" + ("-file" if imp["file"] != file else ""))
+            if only:
+                use_lines.append(f"  use {self.respell(NAMES, imp['module'])}, only: " + ", ".join(only))
         for _ in range(rng.choice([0, 1, 1, 1, 2])):
             lines, ti = self.type_def("  ", self.pick(used), file, sc)
             decl += lines
@@ -312,11 +382,13 @@ class _Site:
             if MODULE_LEVEL_NAMELISTS and rng.random() < 0.3:
                 decl += self.namelist("  ", v, used, file, sc)
         plain: list[tuple[str, str]] = []  # (name, kind) of ordinary module procedures
+        exported: list[tuple] = []
         for _ in range(rng.choice([1, 1, 2])):
             k = rng.choice(["subroutine", "function"])
             nm = self.pick(used)
             procs += self.proc("  ", k, nm, file, sc)
             plain.append((nm, k))
+            exported.append((nm, k, list(self.last_args)))
         # operator / assignment interfaces (need a derived type of this module)
         if types and rng.random() < 0.5:
             self.features.add("operator-interface")
@@ -407,8 +479,10 @@ class _Site:
             free = [b for b in NAMES if b not in used]
             sname = self.sp(NAMES, rng.choice(free)) if free else self.filler()
             sub = {"parent": name, "name": sname, "proc": nm, "kind": k, "arg": args[0]}
-        lines = [f"module {name}", f"  !! {t} module {name}", "  implicit none"] + decl
+        lines = [f"module {name}", f"  !! {t} module {name}"] + use_lines + ["  implicit none"] + decl
         lines += ["contains"] + procs + [f"end module {name}"]
+        self.exports.append({"module": name, "file": file, "procs": exported,
+                             "types": list(types)})
         return lines, sub
 
     def submodule(self, sub, file) -> list[str]:
@@ -786,7 +860,106 @@ def entity_oracle(sf, ents) -> tuple[list[dict], int]:
     return fails, n
 
 
-def check_site(proj: dict, doc, out: Path, root: Path, log, stem_of: dict, sf) -> tuple[list[dict], dict]:
+class ParentRecorder:
+    """`hierarchy` is computed once, when an entity is constructed (`_make_hierarchy` follows the
+    `parent` pointers as they are *then*); FORD later re-parents some entities (the body of a plain
+    interface block is hung below its `FortranModuleProcedureInterface` wrapper, ...) without touching
+    `hierarchy`.  The model therefore takes the parent each entity had when its hierarchy was made:
+    this recorder wraps every `_make_hierarchy` defined in sourceform and notes `self.parent` per call
+    (the last call wins, as the last assignment to `self.hierarchy` does)."""
+
+    def __init__(self, sf):
+        self.sf = sf
+        self.at_init: dict[int, object] = {}
+        self.keep: list = []
+        self._saved: list[tuple] = []
+
+    def __enter__(self):
+        rec = self
+        for cls in [c for c in vars(self.sf).values() if isinstance(c, type) and issubclass(c, self.sf.FortranBase)]:
+            f = cls.__dict__.get("_make_hierarchy")
+            if callable(f):
+                def wrapped(this, *a, _f=f, **kw):
+                    rec.at_init[id(this)] = getattr(this, "parent", None)
+                    rec.keep.append(this)
+                    return _f(this, *a, **kw)
+                self._saved.append((cls, f))
+                setattr(cls, "_make_hierarchy", wrapped)
+        return self
+
+    def reset(self):
+        self.at_init, self.keep = {}, []
+
+    def __exit__(self, *exc):
+        for cls, f in self._saved:
+            setattr(cls, "_make_hierarchy", f)
+        return False
+
+
+def source_of_request(sf, objs, at_init=None):
+    """Correspondence input for the Lean model of `hierarchy` / `source_file` / `filename`
+    (FordModel/SourceOf.lean).  From the real entity objects: the tree as (child, parent) pairs taken
+    from `e.parent` (closed under ancestors), the path of every parent-less object that has one (the
+    source files), and for every entity what the real code answers: ids of `e.hierarchy`,
+    id of `e.source_file`, `e.filename`.  -> (request fields, expected answers, kept objects) or None."""
+    ids: dict[int, int] = {}
+    keep: list = []
+
+    def num(o):
+        if id(o) not in ids:
+            ids[id(o)] = len(ids) + 1
+            keep.append(o)
+        return ids[id(o)]
+
+    pairs, paths, ents, expect = [], [], [], []
+    todo = [o for o in objs if isinstance(o, sf.FortranBase)]
+    seen = set()
+    skipped = 0
+    while todo:
+        o = todo.pop()
+        if id(o) in seen:
+            continue
+        seen.add(id(o))
+        par = at_init[id(o)] if (at_init is not None and id(o) in at_init) else getattr(o, "parent", None)
+        if par is not None:
+            pairs.append((num(o), num(par)))
+            todo.append(par)
+        else:
+            pth = getattr(o, "path", None)
+            if pth is not None:
+                paths.append((num(o), str(pth)))
+        try:
+            hier = [num(x) for x in o.hierarchy]
+            for x in o.hierarchy:
+                todo.append(x)
+            src = num(o.source_file)
+            fname = str(o.filename)
+        except Exception:  # an object that cannot say where it comes from: not comparable
+            skipped += 1
+            continue
+        ents.append(num(o))
+        expect.append((",".join(map(str, hier)) or "-", str(src), fname))
+    if any(("\t" in p_ or "\n" in p_ or any(ord(c) > 127 for c in p_)) for _, p_ in paths):
+        return None
+    fuel = len(ids) + 1
+    req = ["c10.srcof", str(fuel), str(len(pairs))] + [str(x) for pr in pairs for x in pr]
+    req += [str(len(paths))] + [x for i, p_ in paths for x in (str(i), p_)] + [str(e) for e in ents]
+    return req, expect, keep, skipped, [str(e) for e in ents]
+
+
+def source_of_compare(ans, expect, keep, ents_of_req):
+    """-> list of (entity object, model (hierarchy, source, filename), code (...)) that differ"""
+    bad = []
+    if ans[:1] != ["ok"] or len(ans) != 1 + 3 * len(expect):
+        return [(None, ans[:4], "malformed answer")]
+    for k, want in enumerate(expect):
+        got = tuple(ans[1 + 3 * k: 4 + 3 * k])
+        if got != want:
+            bad.append((keep[int(ents_of_req[k]) - 1], got, want))
+    return bad
+
+
+def check_site(proj: dict, doc, out: Path, root: Path, log, stem_of: dict, sf, rendered=None) -> tuple[list[dict], dict]:
     """Evaluate the four oracles.  Returns (failing cases, info)."""
     fails: list[dict] = []
     info = {"pages": 0, "unmatched": [], "dir_mismatch": [], "artefacts": {}, "nolink": 0}
@@ -884,6 +1057,13 @@ def check_site(proj: dict, doc, out: Path, root: Path, log, stem_of: dict, sf) -
         except Exception:
             continue
     for p in doc.docs:
+        items = {k: o for d in (rendered or {}).get(id(p), {}).values() for k, o in d.items()}
+        if items:
+            info["pages_with_id_items"] = info.get("pages_with_id_items", 0) + 1
+            info["rendered_items"] = info.get("rendered_items", 0) + len(items)
+            if len({getattr(o, "filename", None) for o in items.values()}) > 1:
+                info["pages_mixing_files"] = info.get("pages_mixing_files", 0) + 1
+    for p in doc.docs:
         f = p.outfile
         if not f.is_file():
             continue
@@ -893,8 +1073,22 @@ def check_site(proj: dict, doc, out: Path, root: Path, log, stem_of: dict, sf) -
             continue
         ids = _page_ids(f, confirm=True)  # bs4 is the reference
         dup = sorted({i for i in ids if ids.count(i) > 1})
+        on_page = (rendered or {}).get(id(p), {})
         for i in dup:
             if i in FIXED_TEMPLATE_IDS:
+                continue
+            # (round 6) the items that answered this anchor while *this page* was rendered: two distinct
+            # items - wherever they were defined; a page of a generic interface lists specifics of other
+            # modules, a type page lists inherited components - and the id is in the page more than once
+            shown = list(on_page.get(i, {}).values())
+            if len(shown) >= 2:
+                rel = str(f.relative_to(out))
+                fail("anchor-dup",
+                     f"page {rel} has id={i!r} {ids.count(i)} times; distinct items that were rendered on this "
+                     "page with this anchor: "
+                     + ", ".join(f"{type(o).__name__} {o.name!r} in {getattr(getattr(o, 'parent', None), 'name', None)!r} "
+                                 f"({getattr(o, 'filename', '?')})" for o in shown),
+                     [o.name for o in shown], page=rel, anchor=i, kind="rendered")
                 continue
             owners = owners_by_anchor.get(i, [])
             here = [o for o in owners if any(a is p.obj for a in _ancestors(o))]
@@ -1038,9 +1232,65 @@ def run_e2e(rep, drv, rng, n_sites, variant, workdir, projects=None) -> dict:
         cur["doc"] = self
         return orig_write(self)
 
+    # ---- which items answer which anchor *while a page is rendered* (round 6).  Every class of
+    # sourceform that defines `anchor` / `get_url` itself (the base class today; an override added by a
+    # change is found the same way) is wrapped for the duration of the stream: an `anchor` asked for
+    # directly during `page.writeout()` - not from inside `get_url()`, which builds `page#anchor` links to
+    # items shown elsewhere - is recorded as (page, anchor, item).  The values returned are untouched.
+    cur.update(page=None, url_depth=0, acc={})
+    saved_attrs: list[tuple] = []
+
+    def _wrap_anchor(cls, prop):
+        def fget(self, _g=prop.fget):
+            a = _g(self)
+            pg = cur["page"]
+            if pg is not None and cur["url_depth"] == 0 and isinstance(a, str):
+                cur["acc"].setdefault(id(pg), {}).setdefault(a, {})[id(self)] = self
+            return a
+        return property(fget, prop.fset, prop.fdel, prop.__doc__)
+
+    def _wrap_url(fn):
+        def get_url(self, *a, **kw):
+            cur["url_depth"] += 1
+            try:
+                return fn(self, *a, **kw)
+            finally:
+                cur["url_depth"] -= 1
+        get_url.__wrapped__ = fn
+        return get_url
+
+    for cls in [c for c in vars(sf).values() if isinstance(c, type) and issubclass(c, sf.FortranBase)]:
+        a = cls.__dict__.get("anchor")
+        if isinstance(a, property) and a.fget is not None:
+            saved_attrs.append((cls, "anchor", a))
+            setattr(cls, "anchor", _wrap_anchor(cls, a))
+        for nm in ("get_url",):
+            f = cls.__dict__.get(nm)
+            if callable(f) and not isinstance(f, (staticmethod, classmethod)):
+                saved_attrs.append((cls, nm, f))
+                setattr(cls, nm, _wrap_url(f))
+    page_write_classes = [c for c in vars(fo).values()
+                          if isinstance(c, type) and issubclass(c, fo.BasePage) and "writeout" in c.__dict__]
+    for cls in page_write_classes:
+        f = cls.__dict__["writeout"]
+        saved_attrs.append((cls, "writeout", f))
+
+        def page_writeout(self, *a, _f=f, **kw):
+            prev = cur["page"]
+            cur["page"] = self if cur["log"] is not None else None
+            try:
+                return _f(self, *a, **kw)
+            finally:
+                cur["page"] = prev
+        setattr(cls, "writeout", page_writeout)
+
     requests: list[list[str]] = []
     pending: list[dict] = []  # what to compare once the driver has answered
     orig_bcc = fo.env.bytecode_cache
+    precs = ParentRecorder(sf)
+    precs.__enter__()
+    stats["source_of"] = {"entities": 0, "bad": 0, "max_depth": 0, "reparented": 0,
+                          "in_submodule_of_other_file": 0}
     sf.NameSelector.get_name = rec_get_name
     fo.Documentation.writeout = rec_writeout
     if orig_bcc is None:
@@ -1058,6 +1308,8 @@ def run_e2e(rep, drv, rng, n_sites, variant, workdir, projects=None) -> dict:
             pf = e2e.write_project(root, proj["files"], OPTIONS)
             log = _Log()
             cur["log"], cur["doc"] = log, None
+            cur.update(page=None, url_depth=0, acc={})
+            precs.reset()
             t0 = time.time()
             try:
                 res = e2e.run_inprocess(pf)
@@ -1124,9 +1376,35 @@ def run_e2e(rep, drv, rng, n_sites, variant, workdir, projects=None) -> dict:
                 rep.tie_broken(f"correspondence c10b: cannot observe the src/ copy: {type(e).__name__}: {e}",
                                {"stream": STREAM, "site": k, "files": proj["files"]})
                 stats["corr_bad"] += 1
+            # hierarchy / source_file / filename of every entity object vs the model (SourceOf.lean)
+            try:
+                all_objs = _walk(list(doc.project.allfiles) + list(log.items), sf.FortranBase)
+                so = source_of_request(sf, all_objs, precs.at_init)
+                if so is not None:
+                    req, expect, keepobjs, _sk, entf = so
+                    requests.append(req)
+                    pending.append({"what": "srcof", "site": k, "files": proj["files"], "expect": expect,
+                                    "entf": entf, "names": [(type(o).__name__, getattr(o, "name", None)) for o in keepobjs]})
+                    sst = stats["source_of"]
+                    sst["entities"] += len(expect)
+                    sst["max_depth"] = max([sst["max_depth"]] + [h.count(",") + 1 for h, _, _ in expect if h != "-"])
+                    sst["reparented"] += sum(1 for o in all_objs if id(o) in precs.at_init
+                                             and precs.at_init[id(o)] is not getattr(o, "parent", None))
+                    for o in all_objs:
+                        if isinstance(o, sf.FortranSubmodule):
+                            anc = getattr(o, "ancestor_module", None)
+                            if isinstance(anc, sf.FortranBase) and anc.source_file is not o.source_file:
+                                sst["in_submodule_of_other_file"] += 1
+            except Exception as e:
+                rep.tie_broken(f"correspondence c10b: cannot observe hierarchy/source_file: {type(e).__name__}: {e}",
+                               {"stream": STREAM, "site": k, "files": proj["files"]})
+                stats["corr_bad"] += 1
             # ---- (B) oracles
             t0 = time.time()
-            fails, info = check_site(proj, doc, out, root, log, stem_of, sf)
+            fails, info = check_site(proj, doc, out, root, log, stem_of, sf, rendered=cur["acc"])
+            stats["rendered_anchor_items"] = stats.get("rendered_anchor_items", 0) + info.get("rendered_items", 0)
+            stats["pages_mixing_files"] = stats.get("pages_mixing_files", 0) + info.get("pages_mixing_files", 0)
+            stats["pages_with_id_items"] = stats.get("pages_with_id_items", 0) + info.get("pages_with_id_items", 0)
             stats["oracle_s"] += time.time() - t0
             stats["pages"] += info["pages"]
             for a, c in info["artefacts"].items():
@@ -1163,6 +1441,9 @@ def run_e2e(rep, drv, rng, n_sites, variant, workdir, projects=None) -> dict:
         sf.NameSelector.get_name = orig_get
         fo.Documentation.writeout = orig_write
         fo.env.bytecode_cache = orig_bcc
+        precs.__exit__(None, None, None)
+        for cls, nm, val in reversed(saved_attrs):
+            setattr(cls, nm, val)
         cur["log"] = None
 
     # ---- ask the model once for everything
@@ -1182,6 +1463,17 @@ def run_e2e(rep, drv, rng, n_sites, variant, workdir, projects=None) -> dict:
                     {"stream": STREAM, "site": req["site"], "files": req["files"], "variant": variant,
                      "first_difference": idx, "calls_around": [list(c) for c in req["calls"][lo:idx + 2]],
                      "model": got[lo:idx + 2], "status": ans[:1]})
+        elif req["what"] == "srcof":
+            bad = source_of_compare(ans, req["expect"], list(range(len(req["names"]))), req["entf"])
+            for idx, got, want in bad[:2]:
+                stats["corr_bad"] += 1
+                stats["source_of"]["bad"] += 1
+                who = req["names"][idx] if isinstance(idx, int) else None
+                rep.tie_broken(
+                    f"correspondence c10b: (hierarchy, source_file, filename) of {who} in site {req['site']}: "
+                    f"model {got}, implementation {want}",
+                    {"stream": STREAM, "site": req["site"], "files": req["files"], "model": list(got) if not isinstance(got, str) else got,
+                     "code": list(want) if not isinstance(want, str) else want})
         elif req["what"] == "src":
             if ans[:1] != ["ok"] or ans[1:] != req["served"]:
                 stats["corr_bad"] += 1
